@@ -128,12 +128,15 @@ pub fn import<R: std::io::Read>(
                 commodity: commodity.clone().into_owned(),
             });
         }
+        // The charge is part of `amount`, so what reaches the counter party is `amount + charged`.
+        let mut charged = Decimal::ZERO;
         if let Some(charge) = fm.extract(FieldKey::Charge, &r)? {
             let payee = config.operator.as_ref().ok_or(ImportError::InvalidConfig(
                 "config should have operator to have charge",
             ))?;
             match str_to_comma_decimal(&charge)? {
                 Some(value) if !value.is_zero() => {
+                    charged = value;
                     txn.add_charge(
                         payee,
                         OwnedAmount {
@@ -176,14 +179,14 @@ pub fn import<R: std::io::Read>(
                         source: secondary_commodity.to_owned(),
                         target: commodity.into_owned(),
                     },
-                    amount * rate,
+                    (amount + charged) * rate,
                 ),
                 config::ConversionRateMode::PriceOfSecondary => (
                     CommodityPair {
                         source: commodity.into_owned(),
                         target: secondary_commodity.to_owned(),
                     },
-                    amount / rate,
+                    (amount + charged) / rate,
                 ),
             };
             txn.add_rate(rate_key, rate)?;
@@ -196,6 +199,13 @@ pub fn import<R: std::io::Read>(
             txn.transferred_amount(OwnedAmount {
                 value: transferred,
                 commodity: secondary_commodity.to_owned(),
+            });
+        } else if !charged.is_zero() {
+            // Without conversion the counter posting must still be net of the charge,
+            // otherwise the transaction does not balance.
+            txn.transferred_amount(OwnedAmount {
+                value: amount + charged,
+                commodity: commodity.into_owned(),
             });
         }
         res.push(txn);
